@@ -145,6 +145,42 @@ theorem C10_cognito_error_cases (t : TokenResp) (u : UserinfoResp)
 
 example : (cognitoRedeem (.ok "at" "rt" "" 600) (.ok [97] false)).1 = .session [97] "at" "rt" 600 := rfl
 
+/-- **C10, all three providers at once**: `Redeem` yields a session only for a non-empty code, a 200 token answer and an e-mail
+the provider returned for it — for Google the id_token's verified claim, for Okta the verified userinfo e-mail, for Cognito the
+userinfo e-mail — and it never crashes. -/
+theorem C10_redeem_session_only_vouched (k : ProvKind) (code : String) (t : TokenResp) (idt : IDTok) (u : UserinfoResp)
+    (e : Bytes) (at' rt : String) (ttl : Int) (h : (redeemOf k code t idt u).1 = .session e at' rt ttl) :
+    code ≠ "" ∧ e ≠ [] ∧ (∃ idTok, t = .ok at' rt idTok ttl) ∧
+      (match k with
+       | .google => idt = .claims e true
+       | .okta => u = .ok e true
+       | .cognito => ∃ v, u = .ok e v) := by
+  unfold redeemOf at h
+  by_cases hc : code = ""
+  · simp [hc] at h
+  · simp only [hc, if_false] at h
+    cases k with
+    | google =>
+      have := C10_google_session_only_if t idt e at' rt ttl h
+      exact ⟨hc, this.2.2, this.1, this.2.1⟩
+    | okta =>
+      have := C10_okta_session_only_if t u e at' rt ttl h
+      exact ⟨hc, this.2.2.2, this.1, this.2.2.1⟩
+    | cognito =>
+      have := C10_cognito_session_only_if t u e at' rt ttl h
+      exact ⟨hc, this.2.2.2, this.1, this.2.2.1⟩
+
+theorem C10_redeem_never_panics (k : ProvKind) (code : String) (t : TokenResp) (idt : IDTok) (u : UserinfoResp) :
+    (redeemOf k code t idt u).1 ≠ .panic := by
+  unfold redeemOf
+  by_cases hc : code = ""
+  · simp [hc]
+  · simp only [hc, if_false]
+    cases k with
+    | google => exact C10_never_panics t idt
+    | okta => exact C10_okta_never_panics t u
+    | cognito => exact C10_cognito_never_panics t u
+
 /-- the pinned tree crashed on an id_token without a second segment (finding (g), fixed) -/
 theorem C10_unfixed_panics : googleRedeemUnfixed (.ok "a" "r" "nodots" 60) .noSecondSegment = .panic := rfl
 
